@@ -523,7 +523,12 @@ impl<'a> Ctx<'a> {
             self.log.ev(format!("#{i} closehs skipped (no listener for {dst})"));
             return;
         };
-        if routed != lid || dh == h || dst.ip().is_loopback() || !self.m.has_family(h, v4) || self.may_self_connect(h, dst) || self.m.free_ephemeral(h, Proto::Tcp, v4) < 64 {
+        // sibling mode: the listener that is closed is another one on the same host and port (under another specific
+        // address); the handshake in flight belongs to `routed`, which stays open and must still get its connection
+        let sibling = routed != lid
+            && self.m.get(dh, lid).map(|s| s.role == Role::Listener && s.local.port() == dst.port() && s.local.is_ipv4() == v4 && !s.local.ip().is_unspecified() && s.local.ip() != dst.ip()).unwrap_or(false)
+            && self.m.get(dh, routed).map(|s| !s.local.ip().is_unspecified()).unwrap_or(false);
+        if (routed != lid && !sibling) || dh == h || dst.ip().is_loopback() || !self.m.has_family(h, v4) || self.may_self_connect(h, dst) || self.m.free_ephemeral(h, Proto::Tcp, v4) < 64 {
             self.log.ev(format!("#{i} closehs skipped"));
             return;
         }
@@ -587,6 +592,25 @@ impl<'a> Ctx<'a> {
         // what is judged afterwards: the port is free again, nobody accepts or answers on it
         self.log.ev(format!("#{i} closehs h{h} -> {dst}: listener id{lid} on h{dh} closed mid-handshake, connector got {kindr}"));
         self.log.tag("closehs");
+        if sibling {
+            self.rep.faults.inc("sibling_listener_on_the_same_port_closed_with_handshake_in_flight");
+            self.settle(4);
+            let got = self.accept_all();
+            let mine = got.iter().filter(|(l, ah, _, _)| *l == routed && *ah == dh).count();
+            let ok = matches!(res, Some(Ok(_)));
+            for (_, ah, s, _) in got {
+                self.d.on(ah, || drop(s));
+            }
+            if let Some(Ok(st)) = res {
+                self.d.on(h, || drop(st));
+            }
+            self.settle(12);
+            if !ok || mine != 1 {
+                let msg = format!("#{i}: while a handshake h{h} -> {dst} was in flight, the listener id{lid} on the same port under another address of h{dh} was closed; the connect gave {kindr} and listener id{routed} handed out {mine} connection(s) — the other listener's close must not touch it");
+                self.fail("TcpSiblingListenerClose", msg);
+            }
+            return;
+        }
         if let Some(Ok(st)) = res {
             self.d.on(h, || drop(st));
         }
@@ -1561,7 +1585,7 @@ impl Property for C17 {
         let mut next_id = 1u32;
         let n = rng.usize(3, 12);
         for _ in 0..n {
-            let k = rng.weighted(&[50, 9, 14, 20, 7, 7, 0, 5, 2]);
+            let k = rng.weighted(&[50, 9, 14, 20, 7, 7, 0, 5, 2, 2]);
             match k {
                 0 => {
                     let host = rng.below(nh as u64) as usize;
@@ -1636,6 +1660,20 @@ impl Property for C17 {
                     }
                     let wild: Vec<usize> = ls.iter().copied().filter(|&i| shadow[i].ip == "0.0.0.0" || shadow[i].ip == "::").collect();
                     let li = if !wild.is_empty() && rng.chance(2, 3) { *rng.pick(&wild) } else { *rng.pick(&ls) };
+                    // another listener of the same host on the same fixed port under another specific address?
+                    let sib: Vec<usize> = (0..shadow.len())
+                        .filter(|&i| i != li && shadow[i].proto == Proto::Tcp && !shadow[i].conn && shadow[i].host == shadow[li].host && shadow[i].port == shadow[li].port && matches!(shadow[i].port, PortRef::Fixed(_)) && shadow[i].ip != shadow[li].ip && shadow[i].ip != "0.0.0.0" && shadow[i].ip != "::" && shadow[li].ip != "0.0.0.0" && shadow[li].ip != "::" && shadow[i].ip.contains(':') == shadow[li].ip.contains(':'))
+                        .collect();
+                    if !sib.is_empty() && rng.chance(2, 3) {
+                        // the handshake goes to `li`, the sibling is closed in the middle of it
+                        let target = shadow[li].clone();
+                        let si = *rng.pick(&sib);
+                        let closed = shadow.remove(si);
+                        let others: Vec<usize> = (0..nh).filter(|h| *h != target.host).collect();
+                        let host = *rng.pick(&others);
+                        steps.push(Step::CloseDuringHandshake { host, ip: target.ip.clone(), port: target.port.clone(), listener: closed.id });
+                        continue;
+                    }
                     let t = shadow.remove(li);
                     let others: Vec<usize> = (0..nh).filter(|h| *h != t.host).collect();
                     let host = *rng.pick(&others);
@@ -1651,6 +1689,40 @@ impl Property for C17 {
                             steps.push(Step::Bind { id, host: t.host, proto, ip, port: p });
                         }
                     }
+                }
+                9 => {
+                    // two listeners on one port under two addresses of one host (same family); a handshake to the first
+                    // is in flight when the second is closed
+                    let cands: Vec<(usize, String, String)> = (0..nh)
+                        .flat_map(|h| {
+                            let a = &hosts[h];
+                            let mut v = Vec::new();
+                            for i in 0..a.len() {
+                                for j in 0..a.len() {
+                                    if i != j && a[i].contains(':') == a[j].contains(':') {
+                                        v.push((h, a[i].clone(), a[j].clone()));
+                                    }
+                                }
+                            }
+                            v
+                        })
+                        .collect();
+                    if cands.is_empty() || nh < 2 {
+                        continue;
+                    }
+                    let (th, ip1, ip2) = rng.pick(&cands).clone();
+                    let port = *rng.pick(&FIXED_PORTS);
+                    if shadow.iter().any(|s| s.host == th && s.proto == Proto::Tcp && s.port == PortRef::Fixed(port)) {
+                        continue;
+                    }
+                    let (id1, id2) = (next_id, next_id + 1);
+                    next_id += 2;
+                    steps.push(Step::Bind { id: id1, host: th, proto: Proto::Tcp, ip: ip1.clone(), port });
+                    steps.push(Step::Bind { id: id2, host: th, proto: Proto::Tcp, ip: ip2, port });
+                    shadow.push(Shadow { id: id1, host: th, proto: Proto::Tcp, ip: ip1.clone(), port: PortRef::Fixed(port), conn: false });
+                    let others: Vec<usize> = (0..nh).filter(|h| *h != th).collect();
+                    let host = *rng.pick(&others);
+                    steps.push(Step::CloseDuringHandshake { host, ip: ip1, port: PortRef::Fixed(port), listener: id2 });
                 }
                 8 => {
                     // connect, drop the connecting end without letting the wire run, rotate the allocator once
